@@ -91,6 +91,14 @@ def named_specs(rng):
         facts = [f'There is {gen_wide.article(k1)} {k1} with id {a}.', f'There is {gen_wide.article(k2)} {k2} with id {b}.',
                  f'There is {gen_wide.article(c)} {c} with {k1} id {a}, with {k2} id {b}, with {attr} {h}.']
         out.append(('\n'.join(decls + facts) + '\n', decls))
+    # a declared concept used as a verb noun whose key and attribute are both plain ids: atoms such as assignment(2,2) have a key and
+    # an attribute equal in name and value (the boundary of C15_sentence_mentions_all's hypothesis)
+    for (a, b, c) in (('patient', 'seat', 'assignment'), ('truck', 'dock', 'booking')):
+        decls = [f'A {a} is identified by an id.', f'A {b} is identified by an id.',
+                 f'{gen_wide.article(c).capitalize()} {c} is identified by a {a}, and has a {b}.']
+        body = [f'A {a} goes from 1 to 2.', f'A {b} goes from 1 to 2.',
+                f'Whenever there is a {a} P, then P can have {gen_wide.article(c)} {c} to exactly 1 {b} S.']
+        out.append(('\n'.join(decls + body) + '\n', decls))
     for chain in (['agent', 'monkey', 'cage', 'zoo'], ['owner', 'car', 'garage', 'street'], ['node', 'link', 'path', 'route']):
         key = rng.choice(['name', 'id'])
         decls = [f'{gen_wide.article(chain[0]).capitalize()} {chain[0]} is identified by {gen_wide.article(key)} {key}.']
